@@ -251,11 +251,13 @@ func main() {
 	repo, out := os.Args[1], os.Args[2]
 	for _, d := range []string{"core/exporter/tabular", "core/tree", "core/shared", "core/parser", "core/endpoints", "web/converter/shared", "web/converter"} {
 		parseDir(filepath.Join(repo, d))
+		collectConsts(filepath.Join(repo, d))
 	}
 	var w strings.Builder
 	w.WriteString("(* GENERATED by go/cmd/translate from the repository source - do not edit. *)\n")
-	w.WriteString("From Coq Require Import List ZArith Strings.Byte.\nFrom IGP Require Import Base.Str Model.Tree Model.DoV.\nImport ListNotations.\nOpen Scope Z_scope.\n\n")
+	w.WriteString("From Coq Require Import List ZArith Strings.Byte.\nFrom IGP Require Import Base.Str Model.Tree Model.DoV Model.Leaves Model.Flat Model.Visual.\nImport ListNotations.\nLocal Open Scope Z_scope.\n\n")
 	genComplexity(&w)
+	genVisual(&w)
 	sort.Strings(unsupported)
 	var us []string
 	for _, u := range unsupported {
